@@ -40,6 +40,11 @@ func (w *World) regCheck(which regWhich) *Violation {
 	w.Stats.Add("reach.inlined-children", wr.Inlined)
 	w.Stats.Add("reach.compact-encoding", wr.Compact)
 	w.Stats.Add("reach.external-group", wr.XGroups)
+	w.Stats.Add("reach.inline-group", wr.Groups)
+	w.Stats.Add("reach.last-level-list", wr.Lists)
+	if wr.MaxGroupLevel >= 2 {
+		w.Stats.Inc("reach.group-level>=2")
+	}
 	w.Stats.Add("reach.large-value", wr.LargeVals)
 	for _, t := range wr.Trees {
 		if t.Height >= 3 {
